@@ -62,6 +62,8 @@ fn unhex(s: &str) -> Vec<u8> {
 
 #[derive(Debug)]
 pub enum Sys {
+	/// the output file was opened for writing; `true` = with O_TRUNC
+	Open(bool),
 	Write { pos: u64, data: Vec<u8> },
 	Truncate(u64),
 }
@@ -101,8 +103,8 @@ pub fn parse_strace(log: &str, out_path: &str) -> Result<Vec<Sys>, String> {
 				let q: Vec<&str> = args.split('"').collect();
 				if q.len() >= 2 && String::from_utf8_lossy(&unhex(q[1])) == out_path && retn >= 0 {
 					fds.insert(retn, 0);
-					if args.contains("O_TRUNC") {
-						ops.push(Sys::Truncate(0));
+					if args.contains("O_WRONLY") || args.contains("O_RDWR") {
+						ops.push(Sys::Open(args.contains("O_TRUNC")));
 					}
 				}
 			}
@@ -174,11 +176,24 @@ pub fn parse_strace(log: &str, out_path: &str) -> Result<Vec<Sys>, String> {
 	Ok(ops)
 }
 
-pub fn run_syscall_case(cx: &CaseCtx, rep: &mut Report, format: &str, real_binary: bool) {
+pub fn run_syscall_case(cx: &CaseCtx, rep: &mut Report, format: &str, real_binary: bool, preexisting: bool) {
 	let dir = cx.fresh_dir("c12sys");
 	let ts = tileset_for(cx.seed, cx.case, format);
 	let out = dir.join(format!("out.{format}"));
 	let trace = dir.join("trace.txt");
+	// an older, complete container of other content already sits at the output path: the bytes on disk
+	// after an interrupted *replacing* write start from it unless the writer truncates
+	let mut old: Vec<u8> = vec![];
+	if preexisting {
+		let old_ts = tileset_for(cx.seed, cx.case + 1000, format);
+		let mut m = MemSource::new(&old_ts);
+		if guard::block_on(versatiles_container::write_to_filename(&mut m, out.to_str().unwrap())).is_err() {
+			rep.inconclusive("fixture write of the pre-existing container failed");
+			return;
+		}
+		old = std::fs::read(&out).unwrap_or_default();
+		rep.count("syscall_traces_over_a_preexisting_container", 1);
+	}
 	let mut cmd = std::process::Command::new("strace");
 	cmd.arg("-f").arg("-o").arg(&trace).arg("-e").arg("trace=open,openat,close,dup,dup2,dup3,fcntl,write,pwrite64,lseek,ftruncate").arg("-xx").arg("-s").arg("67108864");
 	if real_binary {
@@ -211,12 +226,19 @@ pub fn run_syscall_case(cx: &CaseCtx, rep: &mut Report, format: &str, real_binar
 		}
 	};
 	// the replayed log must reproduce the file on disk, otherwise the log is not trusted
-	let mut full: Vec<u8> = vec![];
+	let step = |img: &mut Vec<u8>, o: &Sys| match o {
+		Sys::Open(true) => img.clear(),
+		Sys::Open(false) => {}
+		Sys::Write { pos, data } => apply(img, *pos, data),
+		Sys::Truncate(n) => img.resize(*n as usize, 0),
+	};
+	let mut full: Vec<u8> = old.clone();
 	for o in &ops {
-		match o {
-			Sys::Write { pos, data } => apply(&mut full, *pos, data),
-			Sys::Truncate(n) => full.resize(*n as usize, 0),
-		}
+		step(&mut full, o);
+	}
+	if !ops.iter().any(|o| matches!(o, Sys::Open(_))) {
+		rep.inconclusive("the syscall log shows no open of the output file for writing");
+		return;
 	}
 	let disk = std::fs::read(&out).unwrap_or_default();
 	if disk != full {
@@ -234,11 +256,19 @@ pub fn run_syscall_case(cx: &CaseCtx, rep: &mut Report, format: &str, real_binar
 	}
 	let n = ops.len();
 	let fp = ts.fingerprint() ^ fnv(format.as_bytes()) ^ 0x5157;
-	let mut image: Vec<u8> = vec![];
+	let mut image: Vec<u8> = old.clone();
 	let mut bad = 0;
+	let mut started = false; // crash points begin once the writer has opened the file
 	for k in 0..=n {
 		if bad > 6 {
 			break;
+		}
+		if !started {
+			if k < n {
+				step(&mut image, &ops[k]);
+				started = matches!(ops[k], Sys::Open(_));
+			}
+			continue;
 		}
 		let mut points: Vec<(Option<usize>, Vec<u8>)> = vec![(None, image.clone())];
 		if k < n {
@@ -266,20 +296,17 @@ pub fn run_syscall_case(cx: &CaseCtx, rep: &mut Report, format: &str, real_binar
 					rep.violation(
 						&format!("{format}|syscall|opens-but-wrong"),
 						"a crash between two system calls leaves a file that opens as a valid container but lacks / misreports tiles",
-						json!({"format": format, "real_binary": real_binary, "tileset": ts.describe(), "syscalls_total": n, "completed_syscalls": k, "byte_cut_in_next_write": cut, "next_syscall": ops.get(k).map(|o| match o { Sys::Write{pos,data} => format!("write {} bytes at {}", data.len(), pos), Sys::Truncate(n) => format!("truncate to {n}") }), "what": e}),
+						json!({"format": format, "real_binary": real_binary, "preexisting_container_at_output_path": preexisting, "tileset": ts.describe(), "syscalls_total": n, "completed_syscalls": k, "byte_cut_in_next_write": cut, "next_syscall": ops.get(k).map(|o| match o { Sys::Write{pos,data} => format!("write {} bytes at {}", data.len(), pos), Sys::Truncate(n) => format!("truncate to {n}"), Sys::Open(t) => format!("open (truncating: {t})") }), "what": e}),
 					);
 				}
 			}
 		}
 		if k < n {
-			match &ops[k] {
-				Sys::Write { pos, data } => apply(&mut image, *pos, data),
-				Sys::Truncate(len) => image.resize(*len as usize, 0),
-			}
+			step(&mut image, &ops[k]);
 		}
 	}
 	if rep.wants_sample() {
-		rep.sample(json!({"level": "syscall", "format": format, "real_binary": real_binary, "syscalls_on_output_file": n, "first": ops.iter().take(4).map(|o| format!("{o:?}").chars().take(60).collect::<String>()).collect::<Vec<_>>()}));
+		rep.sample(json!({"level": "syscall", "format": format, "real_binary": real_binary, "preexisting": preexisting, "syscalls_on_output_file": n, "first": ops.iter().take(4).map(|o| format!("{o:?}").chars().take(60).collect::<String>()).collect::<Vec<_>>()}));
 	}
 	let _ = std::fs::remove_dir_all(&dir);
 	let _ = Path::new("");
